@@ -306,7 +306,10 @@ def walkItem (P : Params) (defT : Int) (w : Walk) (it : Item) : Walk :=
     else if parsedTs.isNone && seen then
       -- earlier occurrences were all rejected: either behaviour is admissible
       match w.evs with
-      | .call e :: rest => if isWant e then consume { w with counted := w.counted + 1 } e rest else w
+      -- (never eat into the five report samples + commit that end every cycle: an exposed `up` with
+      -- honor_labels can look exactly like the report sample)
+      | .call e :: rest =>
+        if isWant e && rest.length ≥ 6 then consume { w with counted := w.counted + 1 } e rest else w
       | _ => w
     else
       let w := if P.sampleLimit > 0 then { w with counted := w.counted + 1 } else w
